@@ -98,6 +98,8 @@ fn call(oracle: &str, v: &Value) -> Value {
         "incan::compound_assign" => c07::compound_assign(v),
         #[cfg(feature = "lsp")]
         "incan::emit_slice" => c05::emit_slice(v),
+        #[cfg(feature = "lsp")]
+        "incan::emit_division" => c05::emit_division(v),
         "syntax::get_line_info" => {
             use incan_syntax::diagnostics::{format_error, CompileError};
             use incan_syntax::ast::Span;
@@ -163,6 +165,44 @@ mod c05 {
             }
         }
         None
+    }
+
+    /// C04 bounded stand-in for the lowering of binary / compound-assignment statements and emit_binop_expr:
+    /// `r = L op R` and `T op= R` must become `helper(L', R')` with the documented helper for the table's kind,
+    /// the operands in source order, and exactly the int operands of a float operation promoted.
+    pub fn emit_division(v: &Value) -> Value {
+        let ops = ["/", "//", "%"];
+        let op = ops[v["op"].as_u64().unwrap() as usize % 3];
+        let lf = v["lfloat"].as_bool().unwrap();
+        let rf = v["rfloat"].as_bool().unwrap();
+        let compound = v["compound"].as_bool().unwrap();
+        let float = op == "/" || lf || rf;
+        if compound && float != lf { return verdict(true, json!(null), json!(null), v, "compound form would change the target's kind: rejected by the checker (C07)"); }
+        let (l, r) = (if lf { "x" } else { "a" }, if rf { "y" } else { "b" });
+        let stmt = if compound { format!("    mut {l}2: {} = {l}\n    {l}2 {op}= {r}\n", if lf { "float" } else { "int" }) } else { format!("    q = {l} {op} {r}\n") };
+        let src = format!("def f(a: int, b: int, x: float, y: float) -> None:\n{}\ndef main() -> None:\n    pass\n", stmt);
+        let lname = if compound { format!("{l}2") } else { l.to_string() };
+        let helper = match (op, float) { ("/", _) => "py_div", ("//", false) => "py_floor_div_i64", ("//", true) => "py_floor_div_f64", (_, false) => "py_mod_i64", (_, true) => "py_mod_f64" };
+        let want = vec![if float && !lf { format!("{}asf64", lname) } else { lname.clone() }, if float && !rf { format!("{}asf64", r) } else { r.to_string() }];
+        let got = guarded(|| {
+            let tokens = incan::frontend::lexer::lex(&src).map_err(|e| format!("lex: {:?}", e.first().map(|x| x.message.clone())))?;
+            let prog = incan::frontend::parser::parse(&tokens).map_err(|e| format!("parse: {:?}", e.first().map(|x| x.message.clone())))?;
+            incan::IrCodegen::new().try_generate(&prog).map_err(|e| format!("codegen: {}", e))
+        });
+        let echo = { let mut a = v.clone(); a["source"] = json!(src); a };
+        match &got {
+            Ok(Ok(code)) => {
+                let flat: String = code.split_whitespace().collect::<Vec<_>>().join(" ").replace(" :: ", "::");
+                let full = format!("incan_stdlib::num::{}", helper);
+                // the helper name must be followed by '(' (py_mod vs py_mod_i64)
+                let args = flat.match_indices(&full).filter(|(i, _)| flat[i + full.len()..].starts_with('(')).next()
+                    .and_then(|(i, _)| call_args(&flat[i..], &full)).map(|a| a.iter().map(|x| norm(x)).collect::<Vec<_>>());
+                verdict(args.as_ref() == Some(&want), json!({"call_args": args, "num_calls": flat.matches("incan_stdlib::num::").count()}),
+                        json!({"helper": full, "args": want}), &echo, "generated call: documented helper for the table's kind, operands in source order, int operands of a float operation promoted")
+            }
+            Ok(Err(m)) => verdict(false, json!({"front_end_error": m}), json!({"helper": helper}), &echo, "a well-typed division must compile"),
+            Err(m) => verdict(false, json!({"panicked": m}), json!({"helper": helper}), &echo, "front end must not panic"),
+        }
     }
 
     pub fn emit_slice(v: &Value) -> Value {
@@ -416,6 +456,11 @@ fn search(oracle: &str, seed: u64, budget: u64, skip: &[String]) -> Value {
                 let pos = ["let", "return", "arg"];
                 let k = n % 1176;
                 json!({"op": k % 7, "lfloat": (k / 7) % 2 == 0, "rfloat": (k / 14) % 2 == 0, "ann_float": (k / 28) % 2 == 0, "form": forms[((k / 56) % 7) as usize], "position": pos[((k / 392) % 3) as usize]})
+            }
+            "incan::emit_division" => {
+                // exhaustive: 3 operators x 2 x 2 operand kinds x plain/compound = 24 programs
+                let k = n % 24;
+                json!({"op": k % 3, "lfloat": (k / 3) % 2 == 0, "rfloat": (k / 6) % 2 == 0, "compound": (k / 12) % 2 == 0})
             }
             "incan::emit_slice" => {
                 // exhaustive: 2 targets x (slice: 4 start x 4 end x 4 step forms x compact/spaced  +  index: 4 forms) = 2 x (128 + 4) = 264
